@@ -670,6 +670,12 @@ def run(ctx):
         if prog.has_fn("minijinja::vm::Executor::call_block"):
             ctx.floor("C11.R7 conditional charges keyed on the current block" + tag, check_conditional_charges(ctx, prog, tag), 1)
         check_swapped_contexts(ctx, prog, tag)
+        # ---- R10 (= C05.B8, after seed C11-7): the charge argument follows the *instructions*: a jump to a position
+        # remembered from other instructions (a recursive loop entered from a block or an include) re-runs code without
+        # pushing the loop frame that carries the charge, so the render neither ends nor reaches the limit
+        if cname == "MAX" and not ctx.is_borrowed:
+            from .c05_jumps import check_jumps
+            check_jumps(ctx.borrowed("C05", "C11.R10:"), prog, tag)
 
         # R3
         g = callgraph.get(prog)
